@@ -99,7 +99,16 @@ def build_c(schema: Schema, d: str, extra_harness=""):
     ok, lls = c_to_ir(d, srcs, "-O0")
     if not ok:
         raise CompileError(lls)
-    return fcp, load_ir(lls)
+    mod = load_ir(lls)
+    # member names of the generated message structs, from the generated header (order = signal order)
+    import re
+    mod.member_names = {}
+    for n in names:
+        if n.endswith("_can.h"):
+            htxt = open(os.path.join(d, n)).read()
+            for body, nm in re.findall(r"typedef struct \{([^}]*)\} CanMsg(\w+);", htxt):
+                mod.member_names[nm] = re.findall(r"\b(\w+)(?:\[\d+\])?;", body)
+    return fcp, mod
 
 
 class CompileError(Exception):
